@@ -96,6 +96,17 @@ CLAIMED['C12'] = dict(
          'the automaton state and (run task, state, run_arg), nothing delivered for a refused request. The plugin (un)registration '
          'clause is covered by the co-simulation only.' + LIFE_TIE,
     note=LIFE_NOTE, technique='Coq: abstraction to 11 abstract transitions + automaton invariant; co-simulation + oracle', design='5/C12')
+CLAIMED['C03'] = dict(
+    text='Machine-checked proof (Coq 8.16.1) on Life/Model.v: every return of a close is without error; the close that does the work '
+         'returns only in a state that is closed, with no child alive, no run task, and both end-of-subscription publications issued; '
+         'closed is absorbing and a later close() appends only its call and return; a termination measure decreases on every effective '
+         'non-call step, no reachable state with a close in flight is stuck unless it waits only for the child to exit (exactly '
+         'characterised), and from every reachable state with a close in flight there is a continuation after which that close has '
+         'returned in the closed state. PARTIAL: that the child exits is not a theorem -- with an unanswered prompt it never does '
+         '(recorded finding, witnessed by C03_needs_child_exit_witness and by two corpus scenarios); a second close() concurrent with the '
+         'first returns early (C03_second_close_returns_early_witness, outside the quantifier of C03, see DESIGN 6.1).' + LIFE_TIE,
+    note=LIFE_NOTE, technique='Coq invariant proofs + termination measure/progress over an interleaving LTS; co-simulation + close-point scenario families',
+    design='5/C03')
 CLAIMED['C02'] = dict(
     text='Machine-checked proof (Coq 8.16.1) on Life/Model.v: the run_info publications follow initialized, running, finished exactly '
          'once per run with one number and script; the finished record and the result reported afterwards carry the outcome of that '
